@@ -381,6 +381,7 @@ static void op_list(void) {
     for(size_t i = 0; asn_pdu_collection[i]; i++) outf(" %s", asn_pdu_collection[i]->name);
 }
 
+#include "driver_ops3.inc"
 #include "driver_ops2.inc"
 
 int main(int argc, char **argv) {
